@@ -54,7 +54,10 @@ const (
 var (
 	c16Denoms    = []string{"bnb", "ukava", "usdx", "xrp"} // deposit denoms, in sdk.Coins order
 	c16Markets   = []string{"bnb:usd", "kava:usd", "usdx:usd", "xrp:usd"}
-	c16IssDenoms = []string{"tok0", "tok1", "tok2"}
+	// the first two issuance assets are case twins: coin denoms are case sensitive and the issuance
+	// parameter validation only refuses exact duplicates, so "usdtoken" and "USDTOKEN" are two
+	// assets, each with its own owner (the world gives them different owners)
+	c16IssDenoms = []string{"usdtoken", "USDTOKEN", "tok2"}
 	c16B3Denoms  = []string{"bnb", "btcb"}
 	c16CTypes    = []string{"bnb-a", "xrp-a"}
 	c16CDenom    = []string{"bnb", "xrp"}
@@ -177,6 +180,10 @@ func c16Setup(r *Rng) *c16World {
 	owners := make([]int, nAssets)
 	for i := 0; i < nAssets; i++ {
 		owners[i] = roles[r.Intn(len(roles))]
+		if i == 1 && owners[1] == owners[0] {
+			// the case twins never share their owner
+			owners[1] = roles[(owners[0]+1+r.Intn(len(roles)-1))%len(roles)]
+		}
 		blockable := r.Chance(2, 3)
 		var blocked []string
 		if blockable {
